@@ -119,8 +119,10 @@ func (fr *Frame) stdModel(name string, fn *ssa.Function, args []Val, pos token.P
 			three := App("fp.mul", SFP, RNE, fpLit(3), pi)
 			c.oblige(fr, "remwrap-range", "math.Remainder argument within (-3pi, 3pi)", App("fp.lt", SBool, App("fp.abs", SFP, x), three), pos)
 			two := fpLit(2 * math.Pi)
+			// (the remainder of -2*pi is -0: the sign of a zero result is that of x)
 			w := Ite(App("fp.leq", SBool, App("fp.abs", SFP, x), pi), x,
-				Ite(App("fp.gt", SBool, x, pi), App("fp.sub", SFP, RNE, x, two), App("fp.add", SFP, RNE, x, two)))
+				Ite(App("fp.gt", SBool, x, pi), App("fp.sub", SFP, RNE, x, two),
+					Ite(App("fp.eq", SBool, x, App("fp.neg", SFP, two)), fpLit(math.Copysign(0, -1)), App("fp.add", SFP, RNE, x, two))))
 			return one(w)
 		}
 		if c.fp {
